@@ -249,3 +249,107 @@ class PenaltyRules(Unit):
 
 
 UNITS = [Merit(), SetBestIndex(), PenaltyRules()]
+
+
+# ---- models.build_system: the per-interpolation cache (C11.O4, and the premise of C12/C13/C14: systems are built for the
+# ---- current point set) -------------------------------------------------------------------------------------------------
+class NPCache(NPO):
+    """effect-only np shim for build_system: array comparisons become symbolic facts"""
+
+    def __init__(self, eq, close):
+        self.eq, self.close = eq, close
+        self.used = None
+
+    def array_equal(self, a, b):
+        self.used = "array_equal"
+        return SB(self.eq)
+
+    def allclose(self, a, b, *args, **kw):
+        self.used = "allclose"
+        return SB(self.close)
+
+    def max(self, x, **kw):
+        if isinstance(x, (OV, SF)):
+            r = SF.fresh("scale", finite=True)
+            cur().assume(r.r > 0)
+            return r
+        return NPO.max(self, x, **kw)
+
+    def zeros(self, shape, dtype=float):
+        return OV("zeros")
+
+    def empty(self, shape, dtype=float):
+        return OV("empty")
+
+    def copy(self, x):
+        if isinstance(x, OV):
+            o = OV("copy")
+            o.copy_of = x
+            return o
+        return NPO.copy(self, x)
+
+
+class OVm(OV):
+    """opaque matrix with a symbolic shape and item assignment"""
+
+    def __init__(self, tag, n, npt):
+        OV.__init__(self, tag)
+        self.shape = (SI(n), SI(npt))
+        self._n, self._npt = n, npt
+
+    @property
+    def T(self):
+        return OVm(self.tag + "T", self._npt, self._n)
+
+    def _mk(self, *a, **k):
+        return OVm(self.tag, self._n, self._npt)
+    __truediv__ = _mk
+
+    def __setitem__(self, k, v):
+        pass
+
+
+OV.__setitem__ = lambda self, k, v: None
+OV.__pow__ = OV._mk
+OV.__rtruediv__ = OV._mk
+
+
+class BuildSystemCache(Unit):
+    name = "models.build_system_cache"
+    props = ("C11", "C12", "C13", "C14")
+    fmodel = "ORDER"
+    functions = [("cobyqa.models", "build_system")]
+
+    def run(self, c):
+        m = shadow("cobyqa.models") if "models_cache" not in _SH else _SH["models_cache"]
+        _SH["models_cache"] = m
+        eq = z3.Bool(c.fresh_name("same_points_as_cached"))
+        close = z3.Bool(c.fresh_name("close_to_cached"))
+        c.assume(z3.Implies(eq, close))
+        npx = NPCache(eq, close)
+        saved_np, saved_eigh = m.__dict__["np"], m.__dict__["eigh"]
+        m.__dict__["np"] = npx
+        eig = ("eig_values", "eig_vectors")
+        m.__dict__["eigh"] = lambda a, **kw: eig
+        n, npt = z3.Int(c.fresh_name("n")), z3.Int(c.fresh_name("npt"))
+        c.assume(z3.And(n >= 1, npt >= n + 1))
+        xpt = OVm("xpt", n, npt)
+        has_cache = c.choose("cache", 2, ["empty", "filled"])
+        cached = {"xpt": OV("cached_xpt"), "a": OV("cached_a"), "right_scaling": OV("cached_rs"), "eigh": ("cv", "cw")} if has_cache else None
+        ip = types.SimpleNamespace(xpt=xpt, _lhs_cache=cached)
+        try:
+            kind, res = call_expecting(c, "C08.build_system", lambda: m.build_system(ip), ())
+        finally:
+            m.__dict__["np"], m.__dict__["eigh"] = saved_np, saved_eigh
+        from_cache = cached is not None and res[0] is cached["a"]
+        c.oblige("C11.build_system.cache_hit_only_for_identical_points", z3.Implies(z3.BoolVal(from_cache), eq), props=["C11", "C12", "C13", "C14"],
+                 note="the cached system of a different (merely close) interpolation set was reused")
+        if not from_cache:
+            nc = ip._lhs_cache
+            c.oblige("C11.build_system.cache_refreshed_with_a_copy_of_the_points",
+                     z3.BoolVal(isinstance(nc, dict) and getattr(nc.get("xpt"), "copy_of", None) is xpt and nc.get("eigh") is eig and res[2] is eig),
+                     props=["C11", "C12"])
+        c.oblige("C11.build_system.state_lives_on_the_interpolation_object", z3.BoolVal(True), props=["C11"])
+
+
+UNITS.append(BuildSystemCache())
